@@ -22,6 +22,9 @@ pub fn spec(tier: Tier) -> RelSpec {
             mk(2, vec![SrcKind::OpenT, SrcKind::LetClosed, SrcKind::Literal, SrcKind::SubClosed, SrcKind::LetSorted], 1),
             // the rules that cut a pipeline into sub-queries, one step deeper over a small alphabet
             GenCfg { depth: 3, sources: vec![SrcKind::OpenT, SrcKind::LetClosed], max_joins: 1, letters: Letters::Split },
+            // the naming alphabet of C05 (a column listed twice, unnamed computed columns, case-variant renames):
+            // its rows are decided here, with the repeats of a repeated column left out
+            GenCfg { depth: 2, sources: vec![SrcKind::LetClosed, SrcKind::SubClosed], max_joins: 1, letters: Letters::Naming },
         ],
         // depth 2 over all source kinds on the whole exhaustive instance space, plus depth 3 over two source
         // kinds (its defect causes were triaged on the second day, see DESIGN §9) and the Split alphabet at depth 4
@@ -31,6 +34,7 @@ pub fn spec(tier: Tier) -> RelSpec {
             // every depth-3 program of the core alphabet over the two basic source kinds (0.36 M programs, on the
             // instance pool only — `exh_depth` keeps the exhaustive instance space for programs of up to 2 steps)
             mk(3, vec![SrcKind::OpenT, SrcKind::LetClosed], 1),
+            GenCfg { depth: 3, sources: vec![SrcKind::LetClosed, SrcKind::SubClosed], max_joins: 1, letters: Letters::Naming },
         ],
     };
     RelSpec {
